@@ -45,7 +45,7 @@ func (f *Subtract) Call(s *slip.Scope, args slip.List, depth int) (dif slip.Obje
 	var arg slip.Object
 	for pos, a := range args {
 		if dif == nil {
-			dif = a
+			dif = canonicalNumber(a)
 			if _, ok := dif.(slip.Number); !ok {
 				slip.TypePanic(s, depth, "numbers", dif, "number")
 			}
@@ -70,7 +70,7 @@ func (f *Subtract) Call(s *slip.Scope, args slip.List, depth int) (dif slip.Obje
 			}
 			continue
 		}
-		arg, dif = slip.NormalizeNumber(a, dif)
+		arg, dif = slip.NormalizeNumber(canonicalNumber(a), dif)
 		switch ta := arg.(type) {
 		case slip.Fixnum:
 			dif = subFixnums(dif.(slip.Fixnum), ta)
